@@ -532,6 +532,64 @@ Definition vi_visual (s : st) (sel : Z * Z) (key r : Z) : out :=
           else ok (with_sel s0 None)
     end.
 
+(* Navigation mode: [count] [reg-prefix] operator motion  (create_operator_decorator's
+   _operator_in_navigation stores the operator; the motion key reaches
+   text_object_decorator's _apply_operator_to_text_object, which calls it with the
+   operator's key sequence).  op: 0 = d, 1 = y, 2 = c (followed by Escape);
+   reg < 0: no register prefix; motion keys: 0 = l, 1 = h, 2 = $, 3 = 0, 4 = ^,
+   5 = e, 6 = b, 7 = B.  The count typed before the operator is operator_arg; the
+   motion's event.arg becomes operator_arg * 1.  Result of the text object
+   function: (start, type), end = 0; None = no text object. *)
+Definition motion_obj (d : doc) (m arg : Z) : option (Z * Z) :=
+  if m =? 0 then Some (get_cursor_right_position d arg, EXCLUSIVE)
+  else if m =? 1 then Some (get_cursor_left_position d arg, EXCLUSIVE)
+  else if m =? 2 then Some (get_end_of_line_position d, EXCLUSIVE)
+  else if m =? 3 then Some (get_start_of_line_position d false, EXCLUSIVE)
+  else if m =? 4 then Some (get_start_of_line_position d true, EXCLUSIVE)
+  else if m =? 5 then
+    (* end = find_next_word_ending(count); TextObject(end - 1, INCLUSIVE) if end else None *)
+    match find_next_word_ending d arg with
+    | Some e => if e =? 0 then None else Some (e - 1, INCLUSIVE)
+    | None => None
+    end
+  else
+    (* find_start_of_previous_word(count, WORD) or 0 *)
+    Some (match find_start_of_previous_word d arg (m =? 7) with Some p => p | None => 0 end,
+          EXCLUSIVE).
+
+Definition vi_op (s : st) (op reg m arg : Z) : out :=
+  let d := cur_doc s in
+  match motion_obj d m arg with
+  | None => ok s
+  | Some (start, oty) =>
+      (* an exclusive object with equal ends: the motion failed or spans nothing,
+         and the operator is cancelled *)
+      if (oty =? EXCLUSIVE) && (start =? 0) then ok s
+      (* _yank_to_register: the test c in vi_register_names comes before the cut *)
+      else if (op =? 1) && (0 <=? reg) && negb (is_register_name reg) then ok s
+      else
+        match tobj_cut d start 0 oty with
+        | None => (E_ASSERT, s)
+        | Some (nd, data) =>
+            let nonempty := match ctext data with [] => false | _ => true end in
+            let store (s1 : st) : st :=
+              if nonempty then
+                if 0 <=? reg then
+                  if is_register_name reg then with_regs s1 (reg_set (sregs s1) reg data) else s1
+                else with_ring s1 (ring_set (sring s1) data)
+              else s1 in
+            match nd with
+            | None => (E_ASSERT, s)
+            | Some (t, c) =>
+                if op =? 1 then ok (store s)
+                else
+                  let o := ok (store (set_doc s t c)) in
+                  (* change: input_mode = INSERT; the Escape that follows steps back *)
+                  if op =? 2 then vi_escape o else o
+            end
+        end
+  end.
+
 (* KeyProcessor._fix_vi_cursor_position *)
 Definition fix_vi_cursor (s : st) : st :=
   let d := cur_doc s in
@@ -554,7 +612,8 @@ Inductive cmd :=
 | ViX | ViBigX | ViD | ViDD | ViYY | ViP | ViBigP
 | ViPasteReg (r : Z) (before : bool)
 | ViVisual (orig ty key r : Z)
-| ViSubst | ViChangeEol | ViChangeLine.   (* s Esc, C Esc, S Esc *)
+| ViSubst | ViChangeEol | ViChangeLine    (* s Esc, C Esc, S Esc *)
+| ViOp (op reg m : Z).                    (* [reg-prefix] d/y/c motion in navigation mode *)
 
 Definition cmd_id (c : cmd) : Z :=
   match c with
@@ -566,6 +625,7 @@ Definition cmd_id (c : cmd) : Z :=
   | ViPasteReg _ b => if b then 39 else 38
   | ViVisual _ _ k _ => 40 + k
   | ViSubst => 51 | ViChangeEol => 52 | ViChangeLine => 53
+  | ViOp _ _ _ => 60
   end.
 Definition ARG_ID : Z := 99.
 (* C-w reaches two different Binding objects: unix-word-rubout (basic.py) without
@@ -586,7 +646,7 @@ Definition insert_only (c : cmd) : bool :=
 Definition is_vi_cmd (c : cmd) : bool :=
   match c with
   | ViX | ViBigX | ViD | ViDD | ViYY | ViP | ViBigP | ViPasteReg _ _ | ViVisual _ _ _ _
-  | ViSubst | ViChangeEol | ViChangeLine => true
+  | ViSubst | ViChangeEol | ViChangeLine | ViOp _ _ _ => true
   | _ => false
   end.
 
@@ -624,6 +684,7 @@ Definition exec (s : st) (c : cmd) (arg : Z) (rep : bool) : out :=
   | ViSubst => vi_escape (vi_subst_core s arg)
   | ViChangeEol => vi_escape (vi_bigC_core s)
   | ViChangeLine => vi_escape (vi_bigS_core s)
+  | ViOp op reg m => vi_op s op reg m arg
   end.
 
 Definition step (s : st) (c : cmd) (argp : option Z) : out :=
@@ -702,6 +763,8 @@ Definition dec_cmd (x : sx) : option (cmd * option Z) :=
           | 35, [] => r ViYY | 36, [] => r ViP | 37, [] => r ViBigP
           | 38, [A rg] => r (ViPasteReg rg false)
           | 39, [A rg] => r (ViPasteReg rg true)
+          | 60, [A op; A rg; A m] =>
+              if (0 <=? op) && (op <=? 2) && (0 <=? m) && (m <=? 7) then r (ViOp op rg m) else None
           | 40, [A orig; A ty; A key; A rg] =>
               if (0 <=? key) && (key <=? 4) && (0 <=? ty) && (ty <=? 2) then r (ViVisual orig ty key rg)
               else None
